@@ -292,6 +292,7 @@ def run(ctx, rep):
     apps = [c for c in walk_no_nested(fn.node) if isinstance(c, ast.Call) and isinstance(c.func, ast.Attribute) and c.func.attr == 'append'
             and isinstance(c.func.value, ast.Name) and c.func.value.id == cl]
     rep.floor('D1.state', 'appends to the candidate list', len(apps), 1)
+    constructed = set()
     for a in apps:
         st = stmt_of(a)
         cv = a.args[0].id if a.args and isinstance(a.args[0], ast.Name) else None
@@ -316,8 +317,18 @@ def run(ctx, rep):
                     fresh = set(cl_names) == {'copulas.bivariate.clayton.Clayton', 'copulas.bivariate.gumbel.Gumbel'}
                 else:
                     fresh = prog.resolve(fn.module, f) in prog.classes
-        rep.check('D1.state', fn, made[0] if made else a, fresh, 'fresh instance of Clayton and of Gumbel',
-                  'the other candidates are not fresh Clayton / Gumbel instances', construct='fresh candidates')
+        if made and not fresh:
+            q = prog.resolve(fn.module, made[0].value.func)
+            fresh = q in prog.classes
+            constructed.add(q)
+        elif made and isinstance(made[0].value.func, ast.Name):
+            q = prog.resolve(fn.module, made[0].value.func)
+            if q in prog.classes:
+                constructed.add(q)
+            else:
+                constructed.update({'copulas.bivariate.clayton.Clayton', 'copulas.bivariate.gumbel.Gumbel'} if fresh else set())
+        rep.check('D1.state', fn, made[0] if made else a, fresh, 'fresh copula instance',
+                  'a candidate is not a fresh copula instance', construct='fresh candidates')
         tau_set = [s for s in pre if isinstance(s, ast.Assign) and isinstance(s.targets[0], ast.Attribute) and s.targets[0].attr == 'tau'
                    and isinstance(s.targets[0].value, ast.Name) and s.targets[0].value.id == cv
                    and isinstance(s.value, ast.Attribute) and s.value.attr == 'tau' and isinstance(s.value.value, ast.Name) and s.value.value.id == fv]
@@ -331,6 +342,10 @@ def run(ctx, rep):
             isinstance(x, (ast.Raise, ast.Return, ast.Break)) for h in hs for x in ast.walk(h))
         rep.check('D1.state', fn, hs[0] if hs else tr, okh, 'a refused calibration (ValueError) skips the candidate',
                   'the envelope does not skip exactly the refused calibrations (ValueError)', construct='ValueError envelope')
+    want_cls = {'copulas.bivariate.clayton.Clayton', 'copulas.bivariate.gumbel.Gumbel'}
+    rep.check('D1.state', fn, cand_lists[0], want_cls <= constructed, 'Clayton and Gumbel are both offered as candidates',
+              f'the candidate families besides Frank are {sorted(c.split(".")[-1] for c in constructed)}: Clayton and Gumbel must both be offered',
+              construct='candidate families')
     # the returned value is a candidate selected by the scoring pipeline
     sk = ScoreKind(ctx)
     fr = Frame(fn, {})
